@@ -182,6 +182,10 @@ def r2_bounded_writer(ctx):
     for c in tw:
         ok = any(arg_is_local(rp, c.args[0], h) for h in holders)
         R.check(ok, "C08.R2", "response:serialises-into-bounded", "the response is serialised into the bounded writer", "the response is serialised into something else than the bounded writer", where(c))
+    # every reply built by response() went through the bounded serialisation (no early return around it)
+    for c in tw:
+        okp = flow.all_paths_pass(rp, 0, {c.bb}, rp.exits)
+        R.check(okp, "C08.R2", "response:always-bounded", "every path through MethodResponse::response serialises into the bounded writer", "a path through MethodResponse::response returns without the bounded serialisation (e.g. an early return for error payloads): such a reply is sent whatever its size", where(c))
     # the bytes sent are the writer's bytes
     ib = rp.calls_to(r"BoundedWriter::into_bytes$")
     R.check(bool(ib), "C08.R2", "response:uses-writer-bytes", "the success response is built from the bounded writer's bytes", "the success response is not built from the bounded writer's bytes", "%s:%d" % (rp.file, rp.lo))
@@ -195,6 +199,44 @@ def r3_batch(ctx):
     R.floor("C08.R3", len(pushes), 1, "push_str sites in BatchResponseBuilder::append")
     for c in pushes:
         _guard(ctx, ap, c, "C08.R3", "append", "max_response_size", [("len", "field:json"), ("len", "field:result"), ("const", 1)])
+    # what is written per accepted entry is exactly what the guard accounted: the entry's json and one separator byte
+    tr0 = ctx.tracer(follow_callers=False, follow_fields=False)
+    ps = ap.calls_to(r"^std::string::String::push_str$")
+    pc_ = ap.calls_to(r"^std::string::String::push$")
+    for c in ps:
+        lv = tr0.origins(ap, c.args[1])
+        okj = any(l.kind == "call" and re.search(r"RawValue::get$", l.detail["callee"] or "") for l in lv) or any(l.kind == "field" and l.detail["fields"][-1][1] == "json" for l in lv)
+        R.check(okj, "C08.R3", "append:writes-entry-json", "append writes the entry's json", "append writes something else than the entry's json: %s" % [flow.leaf_str(l) for l in lv], where(c))
+    w1 = {}
+    for c in ps:
+        w1[c.bb] = w1.get(c.bb, 0) + 1
+    w2 = {}
+    for c in pc_:
+        w2[c.bb] = w2.get(c.bb, 0) + 1
+    oks = [bi for bi, blk in enumerate(ap.blocks) for st in blk["st"] if st["s"] == "assign" and st["pl"]["l"] == 0 and st["rv"]["k"] == "agg" and st["rv"].get("variant") == "Ok"]
+    if oks:
+        a1 = flow.path_counts(ap, 0, w1, stop=set(oks))
+        a2 = flow.path_counts(ap, 0, w2, stop=set(oks))
+        R.paths_enumerated += 2
+        R.check(a1 == (1, 1) and a2 == (1, 1), "C08.R3", "append:bytes-written-match-accounting", "an accepted entry writes its json once and exactly one separator byte (accounted by the `+ 1`)", "an accepted entry writes json %s times and %s single bytes: the bytes written differ from the `json + buffered + 1` the guard accounted" % (a1, a2), "%s:%d" % (ap.file, ap.lo))
+    fin = F.one(r"^jsonrpsee_core::server::method_response::BatchResponseBuilder::finish$")
+    R.fn(fin)
+    rs = fin.calls_to(r"RawValue::from_string$")
+    if not rs:
+        raise AnchorLost("RawValue::from_string in BatchResponseBuilder::finish")
+    wf = {}
+    for c in fin.calls_to(r"^std::string::String::push$"):
+        wf[c.bb] = wf.get(c.bb, 0) + 1
+    for c in fin.calls_to(r"^std::string::String::pop$"):
+        wf[c.bb] = wf.get(c.bb, 0) - 1
+    for c in fin.calls_to(r"^std::string::String::(push_str|insert|insert_str|extend)$"):
+        wf[c.bb] = wf.get(c.bb, 0) + 1000
+    net = flow.path_counts(fin, 0, wf, stop={rs[0].bb})
+    R.paths_enumerated += 1
+    R.check(net == (0, 0), "C08.R3", "finish:no-unaccounted-growth", "finish() replaces the trailing separator by `]`: the array is exactly as long as what append accounted", "finish() changes the buffer length by %s bytes that append's size guard never accounted: a batch reply one byte above the limit is sent" % (net,), where(rs[0]))
+    nwl0 = F.one(r"^jsonrpsee_core::server::method_response::BatchResponseBuilder::new_with_limit$")
+    init = nwl0.calls_to(r"^std::string::String::push$")
+    R.check(len(init) == 1 and not nwl0.calls_to(r"^std::string::String::push_str$"), "C08.R3", "new_with_limit:one-initial-byte", "the builder starts with the single `[` byte (covered by the buffered-length term)", "the builder's initial content changed (%d pushes)" % len(init), "%s:%d" % (nwl0.file, nwl0.lo))
     # refusal: -32011 with Id::Null
     rej = ap.calls_to(r"reject_too_big_batch_response$")
     R.check(bool(rej), "C08.R3", "append:refusal-code", "refusal is built with reject_too_big_batch_response (-32011)", "append never builds the -32011 refusal", "%s:%d" % (ap.file, ap.lo))
